@@ -299,7 +299,7 @@ fn receiver_actor(
                     pending.lock().unwrap().remove(&k);
                     let fut = async {
                         let k0 = format!("{k}.0");
-                        tr(format!("op recvany {k0} {} {name}", side_name(side)));
+                        tr(format!("opd recvany {k0} {} {name}", side_name(side)));
                         pending.lock().unwrap().insert(k0.clone());
                         let r = rxp.recv_any().await;
                         let mut chunked = false;
@@ -324,7 +324,7 @@ fn receiver_actor(
                         let mut i = 1;
                         while chunked {
                             let ki = format!("{k}.{i}");
-                            tr(format!("op recvchunk {ki} {} {name}", side_name(side)));
+                            tr(format!("opd recvchunk {ki} {} {name}", side_name(side)));
                             pending.lock().unwrap().insert(ki.clone());
                             match rxp.recv_chunk().await {
                                 Ok(Some(d)) => done(&pending, &ki, format!("chunk {}", hex(&d))),
@@ -353,7 +353,7 @@ fn receiver_actor(
                             let subs: Vec<String> = p.iter().filter(|c| c.starts_with(&format!("{k}."))).cloned().collect();
                             for c in subs {
                                 p.remove(&c);
-                                tr(format!("op cancel {c}"));
+                                tr(format!("opd cancel {c}"));
                                 tr(format!("cancelled {c}"));
                             }
                         }
@@ -777,7 +777,7 @@ impl World {
                 let w = side_idx(t[1]);
                 let mut guard = 0;
                 while self.wires[w].queued() > 0 && guard < 10_000 {
-                    tr(format!("op addrelease {} 1", t[1]));
+                    tr(format!("opd addrelease {} 1", t[1]));
                     self.wires[w].add_release(1);
                     self.settle().await;
                     self.log_credits();
